@@ -455,7 +455,8 @@ def next_statement(state: TokenizerState) -> Generator[TokenInfo, None, bool | N
 
     def tab_error() -> TabError:
         return TabError(
-            "inconsistent use of tabs and spaces in indentation", ("<tokenize>", state.lnum, state.pos, state.line)
+            "inconsistent use of tabs and spaces in indentation",
+            ("<tokenize>", state.lnum, state.pos + 1, state.line, state.lnum, state.pos + 1),
         )
 
     if column == state.indents[-1]:
@@ -473,7 +474,7 @@ def next_statement(state: TokenizerState) -> Generator[TokenInfo, None, bool | N
         if column not in state.indents:
             raise IndentationError(
                 "unindent does not match any outer indentation level",
-                ("<tokenize>", state.lnum, state.pos, state.line),
+                ("<tokenize>", state.lnum, state.pos + 1, state.line, state.lnum, state.pos + 1),
             )
         state.indents = state.indents[:-1]
         state.alt_indents = state.alt_indents[:-1]
@@ -549,8 +550,8 @@ def next_end_tokens(state: TokenizerState, open_line: bool) -> Iterator[TokenInf
             "",
         )
     for _ in state.indents[1:]:  # pop remaining indent levels
-        yield TokenInfo(Token.DEDENT, "", (state.lnum, 0), (state.lnum, 0), "")
-    yield TokenInfo(Token.ENDMARKER, "", (state.lnum, 0), (state.lnum, 0), "")
+        yield TokenInfo(Token.DEDENT, "", (state.lnum, 0), (state.lnum, 0), state.line)
+    yield TokenInfo(Token.ENDMARKER, "", (state.lnum, 0), (state.lnum, 0), state.line)
 
 
 def handle_fstring_progs(state: TokenizerState, endprog: EndProg) -> Iterator[TokenInfo]:
